@@ -140,4 +140,64 @@ theorem collect_nonrecursive (db : Db) (sb : Option SetupBy) (force : Bool) (dn 
         · simp at h
         · simp [collectLoop] at h; exact h.symm
 
+/-- every product the loop was given ends up in its result -/
+theorem collectLoop_contains (sb : Option SetupBy) (force : Bool) (top : Str × Str) (recursive : Bool)
+    (recur : Prod → Except Err (List Prod)) :
+    ∀ qs acc l, collectLoop sb force top recursive recur qs acc = .ok l →
+      (∀ p ∈ acc, p ∈ l) ∧ ∀ q ∈ qs, q ∈ l := by
+  intro qs
+  induction qs with
+  | nil => intro acc l h; simp [collectLoop] at h; subst h; exact ⟨fun _ h => h, by simp⟩
+  | cons q qs ih =>
+    intro acc l h
+    rw [collectLoop_cons] at h
+    split at h
+    · simp at h
+    · split at h
+      · cases hq : recur q with
+        | error e => simp [hq] at h
+        | ok sub =>
+          simp only [hq] at h
+          obtain ⟨h1, h2⟩ := ih _ _ h
+          refine ⟨fun p hp => h1 p (by simp [hp]), ?_⟩
+          intro x hx
+          simp only [List.mem_cons] at hx
+          rcases hx with rfl | hx
+          · exact h1 _ (by simp)
+          · exact h2 x hx
+      · obtain ⟨h1, h2⟩ := ih _ _ h
+        refine ⟨fun p hp => h1 p (by simp [hp]), ?_⟩
+        intro x hx
+        simp only [List.mem_cons] at hx
+        rcases hx with rfl | hx
+        · exact h1 _ (by simp)
+        · exact h2 x hx
+
+/-- a successful `_remove` of a product other than the default product collects that product -/
+theorem collect_contains_self (db : Db) (sb : Option SetupBy) (force : Bool) (dn : Option Str) (top : Str × Str)
+    (f : Nat) (name : Str) (ver : Option Str) (recursive : Bool) (l : List Prod)
+    (h : collect db sb force dn top f name ver recursive = .ok l) (hd : dn ≠ some name) :
+    ∃ p, db.find name ver = some p ∧ p ∈ l := by
+  cases f with
+  | zero => simp [collect] at h
+  | succ k =>
+    unfold collect at h
+    split at h
+    · rename_i hdn; exact absurd (by simpa using hdn) hd
+    · split at h
+      · simp at h
+      · rename_i p hp
+        split at h
+        · simp at h
+        · rename_i deps hdeps
+          refine ⟨p, hp, ?_⟩
+          have hmem : p ∈ deps := by
+            unfold directDeps at hdeps
+            split at hdeps
+            · cases hx : depsOf db db.fuel [] p false 0 St.empty with
+              | none => simp [hx] at hdeps
+              | some r => simp [hx] at hdeps; rw [← hdeps]; simp
+            · simp at hdeps; rw [← hdeps]; simp
+          exact (collectLoop_contains _ _ _ _ _ _ _ _ h).2 p hmem
+
 end EupsModel.Remove
